@@ -284,10 +284,15 @@ func judgeEnforce(run *vlib.Run, o *vlib.Oracles, kc *kernelCase, st *kernelStat
 	}
 	if kc.strace {
 		var sc *vlib.StraceCall
+		skippedOuter := false
 		for i := range res.Strace {
 			if res.Strace[i].Name == "seccomp" && len(res.Strace[i].Args) > 0 && res.Strace[i].Args[0] == 1 {
 				if kc.cc.SiblingLoads > 0 && res.Strace[i].Tid != int(jsonU64(loaded["tid"])) {
 					continue // a sibling thread's load
+				}
+				if kc.cc.OuterPolicy != nil && !skippedOuter {
+					skippedOuter = true // the harness' own earlier load of the outer filter
+					continue
 				}
 				sc = &res.Strace[i]
 				break
@@ -566,6 +571,14 @@ func c08() {
 			kc.cc.Flags &^= 1
 			kc.cc.SiblingLoads = 1 + (i/9)%3
 			run.Count("children_with_sibling_threads_loading_concurrently", 1)
+		}
+		if i%10 == 8 && goarch == "amd64" && !kc.cc.KillThreadProbe && !kc.cc.PreloadOnOtherThread && kc.cc.SiblingLoads == 0 {
+			// a staged lock-down: the judged load runs under an earlier filter of the same thread that lets a thread install
+			// further filters but answers every other operation of seccomp(2) (and nothing else) with an error
+			outer := vlib.SpecOf(&seccomp.Policy{DefaultAction: vlib.RetAllow, Syscalls: []seccomp.SyscallGroup{{NamesWithCondtions: []seccomp.NameWithConditions{
+				{Name: "seccomp", Conditions: seccomp.ArgumentConditions{{Argument: 0, Operation: seccomp.NotEqual, Value: 1}}}}, Action: vlib.RetErrno}}}, "x86_64")
+			kc.cc.OuterPolicy = &outer
+			run.Count("children_whose_load_runs_under_an_earlier_filter_of_the_same_thread", 1)
 		}
 		if i%6 == 4 && !kc.cc.KillThreadProbe {
 			kc.cc.PauseBetweenProbes = true
